@@ -15,7 +15,7 @@ LEVEL = "exploration"
 TECHNIQUE = "model-based generation of mask/unmask/reveal/save/load/CLI histories against a {plate: observed} model with a frozen row table; constructor and set_observed examples per case"
 RULE = (
     "screens of arity 1..3 with 1..8 plates whose stored values include 0, NaN and all-zero plates; histories of 3..10 operations from "
-    "{mask, unmask, reveal(ids: unobserved / already observed / repeated / unknown), save+load, reveal_plate CLI, extract_screen_metadata CLI}, sometimes continued "
+    "{mask, unmask, reveal(ids: unobserved / already observed / repeated / unknown, in one of five reveals a long request with 10..30 unknown ids near or far (5000, 1e5, 2**33, negative) outside the id range), save+load, reveal_plate CLI, extract_screen_metadata CLI}, sometimes continued "
     "from an EARLIER screen object (branching), with every earlier object re-checked against its own model after each step; "
     "per case also the constructor rules (mixed plate rejected, observations without mask, neither, mask without observations) and set_observed on a drawn "
     "selection. Non-trivial = history with >=2 reveals of which one touches an already observed or unknown id. distinct = distinct case JSON."
@@ -63,6 +63,12 @@ def _case(draw):
         for _ in range(k):
             j = draw(st.integers(0, n_pl + 7))
             ids.append(j if j < n_pl else (-1 if j == n_pl else 99 if j == n_pl + 1 else (j * 7 + len(ids)) % n_pl))
+        if op in ("reveal", "cli_reveal") and draw(st.integers(0, 4)) == 0:
+            # a long request: the drawn ids plus a run of 10..30 unknown ids near or far outside the screen's range (stale ids)
+            base = draw(st.sampled_from([n_pl + 1, 64, 5000, 100000, 2**33, -40]))
+            ids = ids + list(range(base, base + draw(st.integers(10, 30))))
+            if draw(st.booleans()):
+                ids = ids[::-1]
         ops.append({"op": op, "ids": ids})
     n = len(sc["rows"])
     return {
